@@ -420,4 +420,11 @@ example : (serve { inp := [80, 79, 83, 84, 32, 47, 120, 32, 72, 84, 84, 80, 47, 
     99, 111, 100, 105, 110, 103, 58, 32, 103, 122, 105, 112, 13, 10, 13, 10, 71, 69, 84, 32, 47, 115, 32, 72, 84, 84, 80, 47, 49, 46, 49, 13, 10, 13, 10] }).toOption.map
     (fun r => (r.2.length, r.1.closed)) = some (0, true) := by decide
 
+-- "Content-Length : 5" (blank or tab before the colon) is not a header line: the block ends there, the connection is
+-- closed and neither the POST nor the bytes of its body are dispatched (9bf376e)
+example : foldHeaderLine ([], [], []) [67, 111, 110, 116, 101, 110, 116, 45, 76, 101, 110, 103, 116, 104, 32, 58, 32, 53, 13] = none := by decide
+example : foldHeaderLine ([], [], []) [67, 111, 110, 116, 101, 110, 116, 45, 76, 101, 110, 103, 116, 104, 9, 58, 32, 53, 13] = none := by decide
+example : (serve { inp := [80, 79, 83, 84, 32, 47, 97, 32, 72, 84, 84, 80, 47, 49, 46, 49, 13, 10, 67, 111, 110, 116, 101, 110, 116, 45, 76, 101, 110, 103, 116, 104, 32, 58, 32, 53, 13, 10, 13, 10, 104, 101, 108, 108, 111, 71, 69, 84, 32, 47, 115, 32, 72, 84, 84, 80, 47, 49, 46, 49, 13, 10, 13, 10] }).toOption.map
+    (fun r => (r.2.length, r.1.closed)) = some (0, true) := by decide
+
 end C09
